@@ -5,7 +5,9 @@ import re
 
 import verif
 
-RULE = ("all 512 TCP flag sets (both link modes spread over them); udp/icmp payload lengths 0..70 each plus lengths up "
+RULE = ("[also: one shared filler per kind and link mode called from 8 goroutines, every frame pre-judged against its own "
+        "request, failures and a sample judged by the oracle and the model; whole sx commands on a veth pair / tun] "
+        "all 512 TCP flag sets (both link modes spread over them); udp/icmp payload lengths 0..70 each plus lengths up "
         "to the sweep maximum of both parities; random TTL / IP flags / type / code; length and protocol overrides; "
         "options through the exported constructors and through the real command line plumbing; 4-byte and 16-byte "
         "IPv4 destination addresses; ARP; a separate malformed stream (nil/short/long MACs and addresses, IPv6 "
@@ -19,6 +21,7 @@ CODES = {1: "Fill returns an error where the model builds a frame (or the other 
          13: "default ICMP payload is not 48 bytes",
          100: "(info) spoofed fields are not what the model derives from the predicted draws"}
 
+CONC_QUICK, CONC_THOROUGH = 30000, 1000000
 KIND = {"tcp": 0, "udp": 1, "icmp": 2, "arp": 3}
 TCP_BITS = ["FIN", "SYN", "RST", "PSH", "ACK", "URG", "ECE", "CWR", "NS"]
 # advertised defaults (CLI help texts / README): used only by the implementation-side judgement below
@@ -253,7 +256,7 @@ def parse_eval(ctx, out, nrows):
     return res
 
 
-INPUT_KEYS = ["class", "kind", "via", "vpn", "flags", "ttl", "iplen", "proto", "ipflags", "typ", "code", "has_payload",
+INPUT_KEYS = ["conc", "conc_n", "class", "kind", "via", "vpn", "flags", "ttl", "iplen", "proto", "ipflags", "typ", "code", "has_payload",
               "payload", "src_ip", "dst_ip", "src_mac", "dst_mac", "dport", "seed", "skip", "argv"]
 
 
@@ -269,10 +272,14 @@ def describe(o):
             s += " payload=%dB" % (len(o["payload"]) // 2)
     if o.get("argv"):
         s += " argv=" + " ".join(o["argv"])
+    if o.get("via") == "concurrent":
+        s += " [one filler shared by 8 goroutines, %d Fill calls]" % o.get("conc_n", 0)
     return s
 
 
 def finding_key(o, why):
+    if o.get("via") == "concurrent":
+        return "concurrent:%s:%s" % (o["kind"], " ".join(why.split()[:3]))
     if o["kind"] == "udp" and o["iplen"] > 0 and why.startswith("UDP length field is 0"):
         return "udp:iplen-override:udp-length-zero"
     return "%s:%s" % (o["kind"], " ".join(why.split()[:3]))
@@ -472,6 +479,17 @@ def run(ctx):
                     o["class"], o["i"] = "corpus", 900000 + i
                 rows = got + rows
     if have_harness:
+        # one shared filler per (kind, link mode) called from 8 goroutines at once: Fill must be re-entrant, the
+        # commands hand one filler to all packet-generator workers. Failing frames + a sample come back as cases.
+        conc = run_harness(ctx, "concurrent.jsonl", ["-seed", ctx.seed + 5, "-concurrent", CONC_QUICK if quick else CONC_THOROUGH])
+        ctx.info.append("concurrent stage: %d Fill calls per shared filler (7 fillers, 8 goroutines); %d frames judged "
+                        "by the oracle and the model, %d rejected by the pre-filter" % (
+                            CONC_QUICK if quick else CONC_THOROUGH, len(conc),
+                            sum(1 for o in conc if o.get("conc_bad"))))
+        for o in conc:
+            o["i"] += 700000
+        rows = rows + conc
+    if have_harness:
         try:
             wire = e2e(ctx, quick)
         except Exception as ex:      # environment trouble must not look like a property violation
@@ -496,6 +514,7 @@ def run(ctx):
         # a proof or a tie broke: look harder for a concrete frame that violates the property
         more = run_harness(ctx, "search.jsonl", ["-seed", ctx.seed + 17, "-n", 6000 if quick else 60000,
                                                  "-maxpayload", 2000, "-hunt", 400000 if quick else 4000000])
+        more += run_harness(ctx, "search_concurrent.jsonl", ["-seed", ctx.seed + 23, "-concurrent", 10 * CONC_QUICK])
         seen = 0
         for o in more:
             why = spec_on_impl(o)
@@ -521,6 +540,19 @@ def replay(ctx, path):
         return 1
     if not ctx.harness_build("c05"):
         return 1
+    if r["input"].get("via") == "concurrent":
+        # a frame produced while other goroutines used the same filler: run that shared filler again
+        rows = run_harness(ctx, "replay_concurrent.jsonl", ["-seed", r["input"].get("seed", 1), "-concurrent",
+                                                            max(10 * CONC_QUICK, r["input"].get("conc_n", 0)),
+                                                            "-conc-only", r["input"]["conc"]])
+        bad = [(o, spec_on_impl(o)) for o in rows if spec_on_impl(o)]
+        print("replay: one %s filler shared by 8 goroutines, %d frames came back for judgement, %d violate the property"
+              % (r["input"]["conc"], len(rows), len(bad)))
+        for o, why in bad[:3]:
+            print("replay verdict: %s: %s (frame=%s)" % (describe(o), why, o["frame"]))
+        if not bad:
+            print("replay verdict: property holds on every frame")
+        return 1 if bad else 0
     if r["input"].get("via") == "e2e":
         # a frame of a whole command: run that command again on a fresh virtual wire
         name = r["input"]["class"][len("e2e-"):]
